@@ -306,15 +306,17 @@ class BasicContiguousElement
                           (!AllocatorTraits::propagate_on_container_copy_assignment::value ||
                            AllocatorTraits::is_always_equal::value))
             {
-                reference_ = other.reference_;
-                memory_.propagate_on_container_copy_assignment(other.memory_);
+                // a moved-from element owns no storage that could be assigned into
+                if (memory_)
+                {
+                    reference_ = other.reference_;
+                    memory_.propagate_on_container_copy_assignment(other.memory_);
+                    return;
+                }
             }
-            else
-            {
-                destruct();
-                memory_ = other.memory_;
-                store_and_construct_reference_inplace(other.reference_, other.reference_.size_in_bytes());
-            }
+            destruct();
+            memory_ = other.memory_;
+            store_and_construct_reference_inplace(other.reference_, other.reference_.size_in_bytes());
         }
     }
 
@@ -344,10 +346,14 @@ class BasicContiguousElement
             {
                 if constexpr (ListTraits::IS_FIXED_SIZE_OR_PLAIN)
                 {
-                    reference_ = std::move(other.reference_);
-                    memory_.propagate_on_container_move_assignment(other.memory_);
+                    // a moved-from element owns no storage that could be assigned into
+                    if (memory_)
+                    {
+                        reference_ = std::move(other.reference_);
+                        memory_.propagate_on_container_move_assignment(other.memory_);
+                        return;
+                    }
                 }
-                else
                 {
                     const auto other_size_in_bytes = other.reference_.size_in_bytes();
                     if (other_size_in_bytes > memory_.size())
